@@ -11,10 +11,11 @@ DECIDED = [
     "TRACK/UNTRACK: the amount added to the byte counter is the value stored as the record's size; the amount subtracted is the found record's stored size, read before the record is destroyed, and the element is then removed; the record is keyed by the traced pointer",
     "LOCK: the allocation and stack tables are touched only under tracer->mutex (construction exempt; dump callbacks run under the dump's lock); every unlock is of a held mutex; no function returns holding it",
     "LEVEL: every access to counter/tables/mutex is guarded by level != NONE; bytes/count return 0 at level NONE",
+    "TRACK/frames (NUM): frames_per_stack is stored within [1, 128] at the STACKS level; every copy of captured frames into a fresh stack record fits the frames_per_stack slots it was allocated with, for every count the capture can return (found D21, fixed); the frame buffer handed to aws_backtrace has the count asked for; the level stored is the clamped level; the allocation record is fully initialised",
     "DUMP: nothing reachable from aws_mem_tracer_dump tracks, untracks, changes the counter or mutates the tracer's tables; its foreach callbacks over the tracer's tables only continue",
 ]
 NOT_DECIDED = ["numeric equality of the totals over histories; interleavings (only lock discipline and pairing are decided)"]
-ASSUMPTIONS = ["aws_hash_table put/find/remove_element behave as a map (C02)", "aws_atomic_fetch_add/sub are atomic"]
+ASSUMPTIONS = ["aws_hash_table put/find/remove_element behave as a map (C02)", "aws_atomic_fetch_add/sub are atomic", "aws_backtrace returns at most the number of frames asked for"]
 
 TABLE_MUT = {"aws_hash_table_put", "aws_hash_table_remove", "aws_hash_table_remove_element", "aws_hash_table_clear", "aws_hash_table_clean_up", "aws_hash_table_create",
              "aws_hash_iter_delete", "aws_hash_table_swap", "aws_hash_table_move"}
@@ -74,6 +75,7 @@ def analyse(ctx, replace=None, only=None):
     dispatch(R, P)
     frames(R, fns)
     init_and_records(R, fns, P)
+    frame_copies(R, P, fns)
 
 
 def init_and_records(R, fns, P):
@@ -104,6 +106,91 @@ def init_and_records(R, fns, P):
                     missing.append(fd["n"])
         R.check(zeroed or not missing, "TRACK", "record-fully-initialised", where(g, allocs[0]), "the allocation record is calloc'ed" if zeroed else "every field of the record is assigned on every path",
                 "the allocation record comes from %s and its field(s) %s are not assigned on every path: at the BYTES level `stack` is heap garbage, which aws_mem_tracer_dump then follows" % (allocs[0].node["callee"], missing))
+
+
+def frame_copies(R, P, fns):
+    """TRACK/frames: the captured frames copied into a fresh stack record fit the room the record was allocated with
+    (sizeof(struct stack_trace) + frames_per_stack pointers), for every configured frames_per_stack and every number of
+    frames the capture can return (NUM).  frames_per_stack is in [1, 128] at the STACKS level: decided at the initialiser."""
+    from sa.num import Num, Poly, Limit, entails
+    from sa.awslib import AwsHooks, in_bounds
+    from sa.bounds import access_sites, addr_size
+    ini = fns["s_alloc_tracer_init"]
+    num0 = Num(ini, P, AwsHooks(), max_paths=4000)
+    lo_ok, n0 = True, 0
+    try:
+        ex = num0.states_at({-1})
+    except Limit as exn:
+        R.broken(str(exn))
+        return
+    stores = ini.field_accesses(rec="alloc_tracer", field="frames_per_stack", modes=("w",))
+    for st in ex.get(-1, []):
+        v = [x for k, x in st.env.items() if k.endswith("->frames_per_stack")]
+        lv = [x for k, x in st.env.items() if k.endswith("->level")]
+        stacks = P.enums.get("AWS_MEMTRACE_STACKS")
+        if not v:
+            # the field is not stored on this path: then this is not the STACKS level (where it is the only level used)
+            if not lv or stacks is None or num0.assume_cmp("==", lv[0], Poly.const(stacks), st.copy()):
+                lo_ok = False
+            continue
+        n0 += 1
+        if len(v) != 1 or not (entails(st, Poly.const(1) - v[0]) and entails(st, v[0] - 128)):
+            lo_ok = False
+    R.check(lo_ok and n0 >= 1 and len(stores) >= 1, "TRACK", "init:frames-per-stack-in-1..128", where(ini, stores[0]) if stores else ini.name, "at the STACKS level frames_per_stack is stored within [1, 128] (%d exit states)" % n0,
+            "s_alloc_tracer_init can leave frames_per_stack outside [1, 128] at the STACKS level")
+    f = fns["s_alloc_tracer_track"]
+
+    class H(AwsHooks):
+        def entry(self, num, st):
+            for b in num.fn.blocks.values():
+                for el in b.elems:
+                    for n in num.fn.walk(el, follow_refs=True):
+                        if n["k"] == "member" and n["f"] == "frames_per_stack":
+                            p = num.field(st, num.key(n, st), "alloc_tracer", "frames_per_stack")
+                            st.add(Poly.const(1) - p)
+                            st.add(p - 128)
+                            return
+
+        def flex_extent(self, num, st, key, rec, fld, t):
+            if rec == "stack_trace" and fld == "frames":
+                off = [x["off"] for x in (P.records.get("stack_trace") or {}).get("fields", []) if x["n"] == "frames"]
+                for a, ext in st.extent.items():
+                    if key == "(%r)->frames" % Poly.atom(a) and off:
+                        return ext - off[0]
+            return None
+
+        def call(self, num, st, e, args):
+            if (e.get("callee") or "") == "aws_backtrace":
+                a = num.fresh(st, "depth", None, (0, 2 ** 31))  # ASSUMED: returns at most the number of frames asked for
+                if args[1] is not None:
+                    st.add(Poly.atom(a) - args[1])
+                return Poly.atom(a)
+            return AwsHooks.call(self, num, st, e, args)
+
+    num = Num(f, P, H(), max_paths=6000)
+    sites = [s for s in access_sites(f) if s[1] == "mem"]
+    try:
+        sts = num.states_at({s[0] for s in sites})
+    except Limit as exn:
+        R.broken(str(exn))
+        return
+    n = 0
+    for eid, kind, nd in sites:
+        ok, det, cnt = True, "", 0
+        for st in sts.get(eid, []):
+            s2 = st.copy()
+            for (D, sz, mode) in addr_size(num, s2, kind, nd):
+                if mode != "w":
+                    continue
+                cnt += 1
+                r = in_bounds(s2, D, sz)
+                if r[0] != "ok":
+                    ok, det = False, r[1]
+        if cnt:
+            n += 1
+            R.check(ok, "TRACK", "frames-copied-fit-the-record:line%d" % nd.get("loc", [0])[0], where(f, nd), "the frames copied into the new stack record fit its frames_per_stack slots (%d states)" % cnt,
+                    "s_alloc_tracer_track copies more frames into a new stack record than it was allocated for (%s): with frames_per_stack = 1 and a capture that yields only the tracer's own 2 frames the copy runs 8 bytes past the heap block" % det)
+    R.require(n >= 2, "s_alloc_tracer_track: only %d copies into a stack record analysed (confirmed by reading: 2)" % n)
 
 
 def dispatch(R, P):
@@ -386,6 +473,8 @@ def dump(R, fns):
 
 
 MUTANTS = [
+    {"name": "short-capture-copied-whole", "file": FILE, "expect": "TRACK", "old": "memcpy((void **)&stack->frames[0], &stack_frames[0], kept_depth * sizeof(void *));", "new": "memcpy((void **)&stack->frames[0], &stack_frames[0], stack_depth * sizeof(void *));"},
+    {"name": "frames-per-stack-zero-kept", "file": FILE, "expect": "TRACK", "old": "tracer->frames_per_stack = frames_per_stack ? frames_per_stack : 8;", "new": "tracer->frames_per_stack = frames_per_stack;"},
     {"name": "level-stored-before-the-clamp", "file": FILE, "expect": "LEVEL", "old": "    void *stack[1];\n    if (!aws_backtrace(stack, 1)) {", "new": "    tracer->level = level;\n    void *stack[1];\n    if (!aws_backtrace(stack, 1)) {",
      "old2": "    tracer->traced_allocator = traced_allocator;\n    tracer->level = level;\n", "new2": "    tracer->traced_allocator = traced_allocator;\n"},
     {"name": "record-not-zeroed", "file": FILE, "expect": "TRACK", "old": "    struct alloc_info *alloc = aws_mem_calloc(aws_default_allocator(), 1, sizeof(struct alloc_info));", "new": "    struct alloc_info *alloc = aws_mem_acquire(aws_default_allocator(), sizeof(struct alloc_info));"},
